@@ -303,6 +303,17 @@ fn gen_conditions(ctx: &mut Ctx) -> Result<String, String> {
         let inherits = body[..end].contains("constHOT_RELOADED:bool=T::HOT_RELOADED;");
         out.push_str(&format!("/-- `Arc<T>` is hot-reloaded iff `T` is (`const HOT_RELOADED: bool = T::HOT_RELOADED` in `impl Compound for Arc<T>`) -/\ndef arcInheritsHotReloaded : Bool := {inherits}\n\n"));
     }
+    // `impl<T: DirLoadable> DirLoadable for Arc<T>`: both methods are T's (the trait has a default for `sub_directories`,
+    // so a missing forwarder still compiles and silently walks the source's directories instead of T's)
+    {
+        let dirs_src: String = std::fs::read_to_string(ctx.repo.join("src/dirs.rs")).map_err(|e| e.to_string())?.chars().filter(|c| !c.is_whitespace()).collect();
+        let start = dirs_src.find("impl<T>DirLoadableforstd::sync::Arc<T>whereT:DirLoadable,{").ok_or("dirs.rs: `impl<T> DirLoadable for Arc<T>` not found")?;
+        let body = &dirs_src[start..];
+        let end = body.find("pubstructDirectory<T>").unwrap_or(body.len().min(900));
+        let fwd = body[..end].contains("fnselect_ids(cache:AnyCache,id:&SharedString)->io::Result<Vec<SharedString>>{T::select_ids(cache,id)}")
+            && body[..end].contains("fnsub_directories(cache:AnyCache,id:&SharedString,f:implFnMut(&str))->io::Result<()>{T::sub_directories(cache,id,f)}");
+        out.push_str(&format!("/-- `Arc<T>` lists a directory exactly as `T` does: `select_ids` AND `sub_directories` forward to `T` -/\ndef arcDirLoadableForwards : Bool := {fwd}\n\n"));
+    }
     // Record::insert_*: every insertion is guarded by the identity of the reloader
     {
         let rec = ctx.file("src/hot_reloading/records.rs")?.clone();
